@@ -43,6 +43,7 @@ class Sim:  # pylint: disable=too-many-instance-attributes
 
     def reset(self, root, seed=0, keep_trace=False, fs_rng=None):
         self.root = real_os.path.realpath(root) if root else None
+        self.run_id = getattr(self, 'run_id', 0) + 1
         self.seed = seed
         self.step = 0
         self.digest = hashlib.sha1()
@@ -72,7 +73,7 @@ class Sim:  # pylint: disable=too-many-instance-attributes
         """Path relative to the scratch root, None if it is not ours."""
         if self.root is None:
             return None
-        if path is None:
+        if path == '':
             return ''
         if isinstance(path, int):
             return self.fds.get(path)
@@ -90,7 +91,7 @@ class Sim:  # pylint: disable=too-many-instance-attributes
 
     def point(self, kind, path=None, mut=False, path2=None):
         """A seam call is about to happen. Returns None or a fault name the seam has to act out."""
-        if self.root is None or self.is_quiet():
+        if self.root is None or self.is_quiet() or path is None:
             return None
         rel = self.rel(path)
         if rel is None:
@@ -163,6 +164,8 @@ class SimFile:
         self._mode = mode
         self._writable = any(c in mode for c in 'wxa+')
         self._fd = None
+        self._abs = real_os.path.join(sim.root, rel)
+        self._run = sim.run_id
         sim.open_files[id(self)] = self
         sim.max_open_data = max(sim.max_open_data, len(sim.open_files))
 
@@ -170,7 +173,10 @@ class SimFile:
         return getattr(self._raw, name)
 
     def _path(self):
-        return real_os.path.join(self._sim.root, self.rel)
+        # a file object that outlives its run (closed by a finalizer later) is not an event of the current run
+        if self._sim.run_id != self._run:
+            return None
+        return self._abs
 
     def fileno(self):
         fdesc = self._raw.fileno()
